@@ -19,9 +19,9 @@ import time
 
 ROOT = os.path.dirname(os.path.dirname(os.path.abspath(__file__)))
 SPEC = os.path.join(ROOT, "spec")
-EVID = os.path.join(ROOT, "evidence")
+EVID = os.environ.get("VERIF_EVID") or os.path.join(ROOT, "evidence")     # probes against scratch worktrees write elsewhere
 REPLAYS = os.path.join(EVID, "replays")
-WORKROOT = os.path.join(ROOT, ".work")
+WORKROOT = os.environ.get("VERIF_WORK") or os.path.join(ROOT, ".work")
 FINDINGS = os.path.join(ROOT, "known_findings.json")
 TLA_CP = "/opt/veriftools/tla/tla2tools.jar:/opt/veriftools/tla/CommunityModules-deps.jar"
 REPO = os.environ.get("VERIF_REPO", "/repo")
@@ -275,5 +275,12 @@ def main_wrap(fn):
         rc = fn()
     except MachineryError as e:
         print("MACHINERY-FAILURE: %s" % e, file=sys.stderr, flush=True)
+        sys.exit(2)
+    except SystemExit:
+        raise
+    except BaseException as e:      # a crash of the machinery itself is never reported as a verdict (exit 1 is reserved for violations)
+        import traceback
+        traceback.print_exc()
+        print("MACHINERY-FAILURE: %s: %s" % (type(e).__name__, e), file=sys.stderr, flush=True)
         sys.exit(2)
     sys.exit(rc)
